@@ -301,6 +301,8 @@ const EXOTIC_TYPES: &[&str] = &[
     "日本語", "Cow<'_, str>", "PhantomData<fn() -> T>", "(,)", "((), ((), ()))", "Option<Option<Option<Option<Option<Option<Option<Option<u8>>>>>>>>",
     "HashMap<(String, u8), Vec<(u8, u8)>>", "Result<Vec<(String, u8)>, Box<dyn std::error::Error>>", "tauri::State<'_, Mutex<HashMap<String, Vec<u8>>>>",
     "Channel<Result<(u8, String), String>>", "tauri::ipc::Channel<&'a [u8]>", "dyn Any", "Wrapper<{ N + 1 }>", "Array<T, 3>", "Self", "&Self", "_", "Option<impl Trait>",
+    "Result<(String, Vec<Item>), ApiError<Code>>", "HashMap<(u8, Vec<u8>), Wrapper<Inner>>", "Result<HashMap<String, Vec<u8>>, Box<dyn Error<Code>>>", "Paginated<Vec<(u8, Item<T>)>>",
+    "HashMap<Währung, f64>", "(Schlüssel, u8)", "Result<設定, Größe>", "BTreeMap<Ünit, Vec<Ünit>>",
     "HashSet<>", "Vec<>>", "BTreeMap<String>", "Result<>", "HashMap<,>", "Option< String >", "Vec <u8>", "Result<String , >",
 ];
 
@@ -346,7 +348,7 @@ fn not_rust(rng: &mut Rng) -> String {
     let pool = [
         "# A markdown file\n\n```rust\nfn x() {}\n```\n", "{\"json\": true}", "fn (", "struct {", "#[tauri::command]\nfn broken(", "\u{feff}fn bom() {}", "",
         "\n\n\n", "fn a() { \"unterminated }", "/* unterminated", "#![feature(x)]\n#[tauri::command] fn ok_after_inner_attr() {}", "r#\"raw", "'", "日本語のテキスト",
-        "fn x() { let s = 'ab'; }", "#[derive(Serialize)] struct A { x: }", "<?xml version=\"1.0\"?>", "#!/bin/sh\necho hi\n",
+        "fn x() { let s = 'ab'; }", "fn t() { let title = \"設定\" \"概要\"; }", "fn ü() { let größe = \"ö\" äö; }\n", "struct Ä { ß: \"é\" \"è\" }", "#[derive(Serialize)] struct A { x: }", "<?xml version=\"1.0\"?>", "#!/bin/sh\necho hi\n",
     ];
     let mut t = pool[rng.below(pool.len())].to_string();
     if rng.chance(1, 3) {
